@@ -89,7 +89,7 @@ func pump(w io.Writer, r io.Reader, chunks [][]byte, bufSizes []int, between fun
 // C25 — Application data arrives intact and tampering is detected.
 func TestC25(t *testing.T) {
 	weak := os.Getenv("VERIF_WEAK") == "1"
-	r := mon.New("C25", "every (version, suite) the hooked in-repo server can negotiate with a client offering all implemented suites (TLS 1.0-1.3; legacy ChaCha20 and, in a second process after EnableWeakCiphers, the weak CBC suites via hooks H4/H5) plus parrots x write-size sequences from {0,1,2,15,16,17,2^14-1,2^14,2^14+1,2^15,random} in both directions x read-buffer sizes x TLS 1.3 KeyUpdates sent by the server between writes (with/without update_requested): bytes read are always a prefix of, and finally equal to, the bytes written. Tamper runs: one ciphertext byte of the k-th record flipped, or the record truncated, on the wire: the receiver returns an error and delivers nothing but the plaintext of the records before it. distinct = (version, suite, scenario)")
+	r := mon.New("C25", "every (version, suite) the hooked in-repo server can negotiate with a client offering all implemented suites (TLS 1.0-1.3; legacy ChaCha20 and, in a second process after EnableWeakCiphers, the weak CBC suites via hooks H4/H5) plus parrots x write-size sequences from {0,1,2,15,16,17,2^14-1,2^14,2^14+1,2^15,random} in both directions x read-buffer sizes x TLS 1.3 KeyUpdates sent by the server between writes (with/without update_requested), also coalesced with NewSessionTickets / further KeyUpdates into one record: bytes read are always a prefix of, and finally equal to, the bytes written. Tamper runs: one ciphertext byte of the k-th record flipped, or the record truncated, on the wire: the receiver returns an error and delivers nothing but the plaintext of the records before it. distinct = (version, suite, scenario)")
 	defer r.Finish(t)
 	if weak {
 		tls.EnableWeakCiphers()
@@ -115,7 +115,7 @@ func TestC25(t *testing.T) {
 	}
 	sizes := []int{0, 1, 2, 15, 16, 17, 16383, 16384, 16385, 32768}
 	client := Target{Name: "all-suites", Spec: allSuitesSpec(weak)}
-	reps := mon.Pick(2, 30)
+	reps := mon.Pick(4, 30)
 	type job struct {
 		c        combo
 		scenario string
@@ -126,7 +126,7 @@ func TestC25(t *testing.T) {
 		for rep := 0; rep < reps; rep++ {
 			jobs = append(jobs, job{c, "transfer", rep}, job{c, "flip", rep}, job{c, "truncate", rep}, job{c, "close", rep})
 			if c.v == tls.VersionTLS13 {
-				jobs = append(jobs, job{c, "keyupdate", rep})
+				jobs = append(jobs, job{c, "keyupdate", rep}, job{c, "coalesced", rep})
 			}
 		}
 	}
@@ -294,6 +294,41 @@ func TestC25(t *testing.T) {
 			x2 := pump(h.Client, h.Server, mkChunks(3), bufs, nil)
 			check("c2s", x2, false, 0)
 			r.Count("key_updates_sent", int64(upd))
+		case "coalesced":
+			// a server that puts several post-handshake messages into one record (two session
+			// tickets; a ticket and a KeyUpdate; several KeyUpdates) before / between its data
+			nst := func() []byte {
+				body := []byte{0, 0, 0x1c, 0x20, byte(rg.Intn(256)), byte(rg.Intn(256)), byte(rg.Intn(256)), byte(rg.Intn(256))}
+				body = append(body, vec8(randBytes(rg, 1+rg.Intn(8)))...)
+				body = append(body, vec16(randBytes(rg, 16+rg.Intn(200)))...)
+				body = append(body, 0, 0)
+				return hsMsg(4, body)
+			}
+			sent := 0
+			x := pump(h.Server, h.Client, mkChunks(6), bufs, func(k int) {
+				if k%2 == 1 {
+					return
+				}
+				var prefix []byte
+				nku := 0
+				switch (k/2 + j.rep) % 4 {
+				case 0:
+					prefix = append(nst(), nst()...)
+				case 1:
+					prefix, nku = nst(), 1
+				case 2:
+					nku = 2 + rg.Intn(3)
+				case 3:
+					prefix, nku = append(append(nst(), nst()...), nst()...), 1
+				}
+				if err := tls.VerifSendCoalesced(h.Server, prefix, nku, rg.Intn(2) == 0); err == nil {
+					sent++
+				}
+			})
+			check("s2c", x, false, 0)
+			x2 := pump(h.Client, h.Server, mkChunks(3), bufs, nil)
+			check("c2s", x2, false, 0)
+			r.Count("coalesced_post_handshake_records_sent", int64(sent))
 		case "flip", "truncate":
 			dir := []string{"c2s", "s2c"}[rg.Intn(2)]
 			var w io.Writer = h.Client
